@@ -5,11 +5,12 @@ src=$1; name=$2; wt=/tmp/cs_$name
 git -C /repo worktree remove --force $wt 2>/dev/null; rm -rf $wt
 git -C /repo worktree add -q --detach $wt HEAD || exit 2
 cp $src/demo_test.py $wt/demo_test_seed.py
+for f in $src/*.py; do [ "$(basename $f)" != demo_test.py ] && cp $f $wt/; done   # helper modules of the demo
 run_demo() { (cd $wt && PYTHONPATH=$wt/src timeout 600 /venv/bin/python -m pytest -x -q -p no:cacheprovider demo_test_seed.py > $wt/demo.log 2>&1; echo $?); }
 clean=$(run_demo)
 (cd $wt && git apply $src/patch.diff) || { echo "{\"name\":\"$name\",\"error\":\"patch does not apply\"}" > $src/confirm.json; git -C /repo worktree remove --force $wt; exit 3; }
 patched=$(run_demo)
-rm -f $wt/demo_test_seed.py $wt/demo.log
+rm -f $wt/demo_test_seed.py $wt/demo.log; for f in $src/*.py; do rm -f $wt/$(basename $f); done
 /verif/tools/baseline_ns.sh $wt /tmp/cs_$name.bl > /tmp/cs_$name.summary 2>&1
 summary=$(grep BASELINE /tmp/cs_$name.summary)
 head=$(git -C /repo rev-parse --short HEAD)
